@@ -20,6 +20,12 @@ VARIABLES scfg,   \* configuration (ndots, domains, nosearch ...)
 sxvars == <<scfg, sr, sqm>>
 SInitS == scfg = [ndots |-> 1, domains |-> <<>>, nosearch |-> 0, noaliases |-> 1, hostaliases |-> 0] /\ sr = <<>> /\ sqm = <<>>
 
+(* resolv.conf(5): what the environment says overrides the file -- LOCALDOMAIN replaces the search list and
+   RES_OPTIONS "ndots:n" the ndots value; options passed to ares_init_options() override both (viafile = 0) *)
+Effective(e) ==
+  [e EXCEPT !.domains = IF e.viafile = 1 /\ Len(e.localdomain) > 0 THEN e.localdomain ELSE e.domains,
+            !.ndots = IF e.viafile = 1 /\ e.resndots >= 0 THEN e.resndots ELSE e.ndots]
+
 (* a candidate: the text resolv.conf(5) prescribes, the name that goes on the wire for it (a trailing
    dot is not transmitted) and whether it is a single label (no dot at all in the text) *)
 Cand(txt, wire, single) == [txt |-> txt, wire |-> wire, single |-> single]
